@@ -38,6 +38,7 @@ theorem filter_notM_wanted (managed : α → Bool) (wanted : List α) :
   intro c hc
   simp [isM_of_mem_wanted managed wanted hc]
 
+omit [DecidableEq α] in
 theorem filter_take_drop (p : α → Bool) (l : List α) (n : Nat) :
     (l.take n).filter p ++ (l.drop n).filter p = l.filter p := by
   rw [← List.filter_append, List.take_append_drop]
@@ -60,6 +61,7 @@ theorem kept_sync (managed : α → Bool) (wanted old : List α) (before : Optio
   rw [this]
   exact hk
 
+omit [DecidableEq α] in
 theorem findIdx?_none_of_all_false (p : α → Bool) (l : List α) (h : ∀ c ∈ l, p c = false) :
     l.findIdx? p = none := by
   rw [List.findIdx?_eq_none_iff]
@@ -70,5 +72,85 @@ theorem findIdx?_take_kept (managed : α → Bool) (wanted old : List α) (n : N
   apply findIdx?_none_of_all_false
   intro c hc
   exact kept_not_isM managed wanted old c (List.mem_of_mem_take hc)
+
+end Pyc.Sync
+
+namespace Pyc.Sync
+variable {α : Type} [DecidableEq α]
+
+/-- the managed children after a save are exactly the wanted elements, in order
+    (nothing removed survives, nothing added is missing or duplicated, order kept) -/
+theorem sync_managed (managed : α → Bool) (wanted old : List α) (before : Option α) :
+    (syncChildren managed wanted old before).filter (isM managed wanted) = wanted := by
+  unfold syncChildren
+  simp only [List.filter_append]
+  rw [filter_isM_wanted]
+  have h1 : List.filter (isM managed wanted) (List.take (pos managed wanted old before) (kept managed wanted old)) = [] := by
+    rw [List.filter_eq_nil_iff]
+    intro c hc
+    simp [kept_not_isM managed wanted old c (List.mem_of_mem_take hc)]
+  have h2 : List.filter (isM managed wanted) (List.drop (pos managed wanted old before) (kept managed wanted old)) = [] := by
+    rw [List.filter_eq_nil_iff]
+    intro c hc
+    simp [kept_not_isM managed wanted old c (List.mem_of_mem_drop hc)]
+  simp [h1, h2]
+
+/-- unmanaged children survive, in their relative order -/
+theorem sync_unmanaged (managed : α → Bool) (wanted old : List α) (before : Option α) :
+    (syncChildren managed wanted old before).filter (fun c => !isM managed wanted c)
+      = old.filter (fun c => !isM managed wanted c) :=
+  kept_sync managed wanted old before
+
+/-- when every child is managed (libraries, <node>, <visual_scene>, <technique_common> of a
+    bind_material) the children are replaced wholesale -/
+theorem sync_all (wanted old : List α) (before : Option α) :
+    syncChildren (fun _ => true) wanted old before = wanted := by
+  have : kept (fun _ => true) wanted old = [] := by simp [kept, isM]
+  simp [syncChildren, this]
+
+/-- saving twice is saving once -/
+theorem sync_idem (managed : α → Bool) (wanted old : List α) (before : Option α) :
+    syncChildren managed wanted (syncChildren managed wanted old before) before
+      = syncChildren managed wanted old before := by
+  have hk := kept_sync managed wanted old before
+  cases hw : wanted with
+  | nil =>
+    subst hw
+    have hnone : ∀ l : List α, (kept managed [] l).findIdx? (isM managed []) = none := by
+      intro l
+      apply findIdx?_none_of_all_false
+      exact kept_not_isM managed [] l
+    have e1 : syncChildren managed [] old before = kept managed [] old := by
+      simp [syncChildren]
+    rw [e1]
+    have e2 : kept managed [] (kept managed [] old) = kept managed [] old := by
+      have h := hk; rw [e1] at h; exact h
+    simp [syncChildren, e2]
+  | cons w ws =>
+    rw [← hw]
+    have hne : wanted ≠ [] := by rw [hw]; simp
+    generalize hp : pos managed wanted old before = p at *
+    have hnew : syncChildren managed wanted old before
+        = (kept managed wanted old).take p ++ wanted ++ (kept managed wanted old).drop p := by
+      simp [syncChildren, hp]
+    have hfirst : (syncChildren managed wanted old before).findIdx? (isM managed wanted)
+        = some ((kept managed wanted old).take p).length := by
+      rw [hnew, List.append_assoc, List.findIdx?_append, findIdx?_take_kept]
+      have : (wanted ++ (kept managed wanted old).drop p).findIdx? (isM managed wanted) = some 0 := by
+        rw [hw]
+        simp [List.findIdx?_cons, isM]
+      simp [this]
+    have hpos : pos managed wanted (syncChildren managed wanted old before) before
+        = ((kept managed wanted old).take p).length := by
+      simp [pos, hfirst]
+    have hdef : ∀ l : List α, syncChildren managed wanted l before
+        = (kept managed wanted l).take (pos managed wanted l before) ++ wanted
+          ++ (kept managed wanted l).drop (pos managed wanted l before) := fun _ => rfl
+    rw [hdef (syncChildren managed wanted old before), hpos, hk, hnew]
+    simp only [List.length_take]
+    by_cases h : p ≤ (kept managed wanted old).length
+    · simp [Nat.min_eq_left h]
+    · have h' : (kept managed wanted old).length ≤ p := by omega
+      simp [Nat.min_eq_right h', List.take_of_length_le h', List.drop_of_length_le h']
 
 end Pyc.Sync
